@@ -368,7 +368,7 @@ def rule_w2(chk: Check):
                                     second != (0, True, True) or level != 0:
                                 bad.append((verbose, succ, args, tree, endp, entry, second))
             else:
-                for n in range(0, 6):
+                for n in range(0, 8 if chk.tier == "thorough" else 6):
                     for stream in itertools.product("n+x", repeat=n):
                         for verbose in (False, True):
                             tree, endp, entry, second, level, depth = eval_left_rec(fn, verbose, stream)
